@@ -40,7 +40,9 @@ def stack_events(f, kind):
                 inc = unparse(p.c[2])
                 init = unparse(p.c[0])
                 cond = unparse(p.c[1])
-                loopdir = ("asc" if "++" in inc else "desc" if "--" in inc else "?", init, cond)
+                from loops import counted
+                cl = counted(p)
+                loopdir = (cl["dir"], cl["first"], cl["last"]) if cl else ("?", init, cond)
                 break
             p = p.parent
         out.append((b64, reg, tuple(sorted(guards)), loopdir))
@@ -98,7 +100,8 @@ def run(ctx):
     # loop ranges of the 64-bit variant cover the same 16 registers
     la = [e[3] for e in pu if e[0] is True and e[3]]
     lb = [e[3] for e in po if e[0] is True and e[3]]
-    ok = bool(la and lb) and "16" in la[0][2] and ("15" in lb[0][1]) and (">= 0" in lb[0][2])
+    # ascending push loop and descending pop loop walk the same inclusive register range, in opposite directions
+    ok = bool(la and lb) and la[0][0] == "asc" and lb[0][0] == "desc" and la[0][1] == lb[0][2] and la[0][2] == lb[0][1] and la[0][1] == (None, 0) and la[0][2] == (None, 15)
     rep.check(ok, "D1-PUSH-POP", where(epi), "64bit:loop-range", "push loop 0..15 ascending, pop loop 15..0 descending", "push/pop loops cover different register ranges: %s vs %s" % (la, lb))
 
     # ---- D2 -------------------------------------------------------------------
